@@ -14,6 +14,7 @@
 #define _GNU_SOURCE
 #endif
 #include "common.hh"
+#include <unistd.h>
 #include <dlfcn.h>
 #include <ctime>
 #include <algorithm>
@@ -349,10 +350,18 @@ static void note(Tally &t, bool accepted, bool wrong, bool vaccepted, size_t off
 // ------------------------------------------------------------------------------------------------------------
 // signatures
 // ------------------------------------------------------------------------------------------------------------
-struct SigObj { std::string kind; octets data, uat, subbody; std::string uid; };
+struct SigObj { std::string kind; octets data, uat, subbody; std::string uid; bool viafile; SigObj() : viafile(false) {} };
 struct Judged { bool parsed, haskey, match, valid, verify, expired, crashed; Judged() : parsed(false), haskey(false), match(false), valid(false), verify(false), expired(false), crashed(false) {} bool accept() const { return parsed && haskey && match && valid && verify; } };
 
 static bool verify_kind(TMCG_OpenPGP_Signature *sig, TMCG_OpenPGP_Pubkey *pub, const SigObj &o) {
+	if ((o.kind == "binary" || o.kind == "text") && o.viafile) {
+		// the entry point that reads the document from a file
+		char name[] = "/tmp/verif-c20-doc-XXXXXX"; int fd = mkstemp(name); if (fd < 0) return false;
+		size_t done = 0; while (done < o.data.size()) { ssize_t w = write(fd, &o.data[done], o.data.size() - done); if (w <= 0) break; done += (size_t)w; }
+		close(fd);
+		bool r = sig->Verify(pub->key, std::string(name), 0);
+		unlink(name); return r;
+	}
 	if (o.kind == "binary" || o.kind == "text") return sig->VerifyData(pub->key, o.data, 0);
 	if (o.kind == "alone") return sig->Verify(pub->key, 0);
 	if (o.kind == "key") return sig->Verify(pub->key, pub->pub_hashing, 0);
@@ -487,7 +496,20 @@ static json op_valid(const json &in) {
 	time_t c = T0 + in["c"].get<long>(), e = in["e"].get<long>(), k = T0 + in["k"].get<long>(); int h = in["h"].get<int>();
 	octets issuer(8, 0x11), hashed, left(2, 0), pkt; gcry_mpi_t s = gcry_mpi_new(64); gcry_mpi_set_ui(s, 0x123457);
 	PGP::PacketSigPrepareDetachedSignature(TMCG_OPENPGP_SIGNATURE_BINARY_DOCUMENT, TMCG_OPENPGP_PKALGO_RSA, (tmcg_openpgp_hashalgo_t)h, c, e, "", issuer, hashed);
-	PGP::PacketSigEncode(hashed, left, s, pkt); gcry_mpi_release(s);
+	PGP::PacketSigEncode(hashed, left, s, pkt);
+	int u = in.value("u", 0);
+	if (u) {
+		// the same signature with subpackets in the unhashed area (the library's encoder always leaves it empty)
+		octets usub, body(hashed);
+		time_t nowt = T0 + in["now"].get<long>();
+		if (u & 1) { usub.push_back(5); usub.push_back(2); for (int b = 3; b >= 0; b--) usub.push_back((tmcg_openpgp_byte_t)((nowt >> (8 * b)) & 0xFF)); }
+		if (u & 2) { usub.push_back(5); usub.push_back(3); for (int b = 3; b >= 0; b--) usub.push_back(0); }
+		body.push_back((tmcg_openpgp_byte_t)(usub.size() >> 8)); body.push_back((tmcg_openpgp_byte_t)(usub.size() & 0xFF));
+		body.insert(body.end(), usub.begin(), usub.end()); body.insert(body.end(), left.begin(), left.end());
+		PGP::PacketMPIEncode(s, body);
+		pkt.clear(); PGP::PacketTagEncode(2, pkt); PGP::PacketLengthEncode(body.size(), pkt); pkt.insert(pkt.end(), body.begin(), body.end());
+	}
+	gcry_mpi_release(s);
 	TMCG_OpenPGP_Signature *sig = NULL;
 	if (!PGP::SignatureParse(pkt, 0, sig) || !sig) { g["valid"] = "unparsed"; return g; }
 	fixed_clock = T0 + in["now"].get<long>();
@@ -504,8 +526,12 @@ static json op_textcanon(const json &in) {
 	octets hashed, hashv, left, sigpkt; prepare_hashed("text", v, 1, pk, 8, created, 0, fpr, "", hashed);
 	if (!hash_kind("text", v, pubbody, o, hashed, TMCG_OPENPGP_HASHALGO_SHA256, hashv, left) || sign_hash(pk, 8, hashv, hashed, left, sigpkt)) { g["sign"] = "fail"; return g; }
 	g["sign"] = "ok"; json acc = json::array();
-	for (size_t k = 0; k < in["variants"].size(); k++) { SigObj t(o); t.data = O(in["variants"][k]); acc.push_back(judge(sigpkt, keypkt, t).accept()); }
-	g["accept"] = acc; return g;
+	json accf = json::array();
+	for (size_t k = 0; k < in["variants"].size(); k++) {
+		SigObj t(o); t.data = O(in["variants"][k]); acc.push_back(judge(sigpkt, keypkt, t).accept());
+		t.viafile = true; accf.push_back(judge(sigpkt, keypkt, t).accept());
+	}
+	g["accept"] = acc; g["accept_file"] = accf; return g;
 }
 
 // ------------------------------------------------------------------------------------------------------------
